@@ -192,7 +192,7 @@ func c13bHook(hook, model, name string, self interface{}, setTag func(string), t
 		if pos == len(prog) {
 			break
 		}
-		sub := tx.Session(&gorm.Session{NewDB: true})
+		sub := tx // the handle the hook received, used directly (clone 1: every finisher starts a fresh Statement)
 		switch prog[pos] {
 		case "set":
 			tx.Statement.SetColumn("V"+hook, hook+":"+name)
@@ -240,25 +240,61 @@ func c13bHook(hook, model, name string, self interface{}, setTag func(string), t
 func (h *HbRec) tag(s string) { h.Tag = s }
 func (h *HbSub) tag(s string) { h.Tag = s }
 
-func (h *HbRec) BeforeSave(tx *gorm.DB) error   { return c13bHook("BeforeSave", "rec", h.Name, h, h.tag, tx) }
-func (h *HbRec) BeforeCreate(tx *gorm.DB) error { return c13bHook("BeforeCreate", "rec", h.Name, h, h.tag, tx) }
-func (h *HbRec) AfterCreate(tx *gorm.DB) error  { return c13bHook("AfterCreate", "rec", h.Name, h, h.tag, tx) }
-func (h *HbRec) AfterSave(tx *gorm.DB) error    { return c13bHook("AfterSave", "rec", h.Name, h, h.tag, tx) }
-func (h *HbRec) BeforeUpdate(tx *gorm.DB) error { return c13bHook("BeforeUpdate", "rec", h.Name, h, h.tag, tx) }
-func (h *HbRec) AfterUpdate(tx *gorm.DB) error  { return c13bHook("AfterUpdate", "rec", h.Name, h, h.tag, tx) }
-func (h *HbRec) BeforeDelete(tx *gorm.DB) error { return c13bHook("BeforeDelete", "rec", h.Name, h, h.tag, tx) }
-func (h *HbRec) AfterDelete(tx *gorm.DB) error  { return c13bHook("AfterDelete", "rec", h.Name, h, h.tag, tx) }
-func (h *HbRec) AfterFind(tx *gorm.DB) error    { return c13bHook("AfterFind", "rec", h.Name, h, h.tag, tx) }
+func (h *HbRec) BeforeSave(tx *gorm.DB) error {
+	return c13bHook("BeforeSave", "rec", h.Name, h, h.tag, tx)
+}
+func (h *HbRec) BeforeCreate(tx *gorm.DB) error {
+	return c13bHook("BeforeCreate", "rec", h.Name, h, h.tag, tx)
+}
+func (h *HbRec) AfterCreate(tx *gorm.DB) error {
+	return c13bHook("AfterCreate", "rec", h.Name, h, h.tag, tx)
+}
+func (h *HbRec) AfterSave(tx *gorm.DB) error {
+	return c13bHook("AfterSave", "rec", h.Name, h, h.tag, tx)
+}
+func (h *HbRec) BeforeUpdate(tx *gorm.DB) error {
+	return c13bHook("BeforeUpdate", "rec", h.Name, h, h.tag, tx)
+}
+func (h *HbRec) AfterUpdate(tx *gorm.DB) error {
+	return c13bHook("AfterUpdate", "rec", h.Name, h, h.tag, tx)
+}
+func (h *HbRec) BeforeDelete(tx *gorm.DB) error {
+	return c13bHook("BeforeDelete", "rec", h.Name, h, h.tag, tx)
+}
+func (h *HbRec) AfterDelete(tx *gorm.DB) error {
+	return c13bHook("AfterDelete", "rec", h.Name, h, h.tag, tx)
+}
+func (h *HbRec) AfterFind(tx *gorm.DB) error {
+	return c13bHook("AfterFind", "rec", h.Name, h, h.tag, tx)
+}
 
-func (h *HbSub) BeforeSave(tx *gorm.DB) error   { return c13bHook("BeforeSave", "sub", h.Name, h, h.tag, tx) }
-func (h *HbSub) BeforeCreate(tx *gorm.DB) error { return c13bHook("BeforeCreate", "sub", h.Name, h, h.tag, tx) }
-func (h *HbSub) AfterCreate(tx *gorm.DB) error  { return c13bHook("AfterCreate", "sub", h.Name, h, h.tag, tx) }
-func (h *HbSub) AfterSave(tx *gorm.DB) error    { return c13bHook("AfterSave", "sub", h.Name, h, h.tag, tx) }
-func (h *HbSub) BeforeUpdate(tx *gorm.DB) error { return c13bHook("BeforeUpdate", "sub", h.Name, h, h.tag, tx) }
-func (h *HbSub) AfterUpdate(tx *gorm.DB) error  { return c13bHook("AfterUpdate", "sub", h.Name, h, h.tag, tx) }
-func (h *HbSub) BeforeDelete(tx *gorm.DB) error { return c13bHook("BeforeDelete", "sub", h.Name, h, h.tag, tx) }
-func (h *HbSub) AfterDelete(tx *gorm.DB) error  { return c13bHook("AfterDelete", "sub", h.Name, h, h.tag, tx) }
-func (h *HbSub) AfterFind(tx *gorm.DB) error    { return c13bHook("AfterFind", "sub", h.Name, h, h.tag, tx) }
+func (h *HbSub) BeforeSave(tx *gorm.DB) error {
+	return c13bHook("BeforeSave", "sub", h.Name, h, h.tag, tx)
+}
+func (h *HbSub) BeforeCreate(tx *gorm.DB) error {
+	return c13bHook("BeforeCreate", "sub", h.Name, h, h.tag, tx)
+}
+func (h *HbSub) AfterCreate(tx *gorm.DB) error {
+	return c13bHook("AfterCreate", "sub", h.Name, h, h.tag, tx)
+}
+func (h *HbSub) AfterSave(tx *gorm.DB) error {
+	return c13bHook("AfterSave", "sub", h.Name, h, h.tag, tx)
+}
+func (h *HbSub) BeforeUpdate(tx *gorm.DB) error {
+	return c13bHook("BeforeUpdate", "sub", h.Name, h, h.tag, tx)
+}
+func (h *HbSub) AfterUpdate(tx *gorm.DB) error {
+	return c13bHook("AfterUpdate", "sub", h.Name, h, h.tag, tx)
+}
+func (h *HbSub) BeforeDelete(tx *gorm.DB) error {
+	return c13bHook("BeforeDelete", "sub", h.Name, h, h.tag, tx)
+}
+func (h *HbSub) AfterDelete(tx *gorm.DB) error {
+	return c13bHook("AfterDelete", "sub", h.Name, h, h.tag, tx)
+}
+func (h *HbSub) AfterFind(tx *gorm.DB) error {
+	return c13bHook("AfterFind", "sub", h.Name, h, h.tag, tx)
+}
 
 // HbAudit: fixed bodies -- a before-hook AND an after-hook that both go through SetColumn (two walks over the nested batch)
 func (a *HbAudit) log(hook string, tx *gorm.DB) {
@@ -280,6 +316,18 @@ func (a *HbAudit) AfterCreate(tx *gorm.DB) error {
 	return nil
 }
 func (a *HbAudit) AfterFind(tx *gorm.DB) error { a.log("AfterFind", tx); return nil }
+
+// c13Guard runs one operation of any C13 suite: a panic escaping from gorm (e.g. reflect "index out of range" out of
+// Statement.SetColumn) becomes an error result, which every oracle judges (unexpected error / hook error not returned),
+// instead of killing the harness before it can name a failing input.
+func c13Guard(f func() *gorm.DB) (res *gorm.DB) {
+	defer func() {
+		if p := recover(); p != nil {
+			res = &gorm.DB{Error: fmt.Errorf("PANIC escaped from the operation: %v", p)}
+		}
+	}()
+	return f()
+}
 
 // ---- case ----------------------------------------------------------------------------------------
 
@@ -613,11 +661,11 @@ func c13bRun(c c13bCase) c13bObs {
 // ---- oracle --------------------------------------------------------------------------------------
 
 var c13bSeqs = map[string][]string{
-	"create": {"BeforeSave", "BeforeCreate", "AfterCreate", "AfterSave"},
-	"save":   {"BeforeSave", "BeforeCreate", "AfterCreate", "AfterSave"},
+	"create":  {"BeforeSave", "BeforeCreate", "AfterCreate", "AfterSave"},
+	"save":    {"BeforeSave", "BeforeCreate", "AfterCreate", "AfterSave"},
 	"updates": {"BeforeSave", "BeforeUpdate", "AfterUpdate", "AfterSave"},
-	"delete": {"BeforeDelete", "AfterDelete"},
-	"find":   {"AfterFind"},
+	"delete":  {"BeforeDelete", "AfterDelete"},
+	"find":    {"AfterFind"},
 }
 
 func c13bHas(prog []string, a string) bool {
